@@ -162,3 +162,18 @@ def shrink(case):
     for i in range(len(ops)):
         d2 = dict(d); d2["ops"] = ops[:i] + ops[i + 1:]
         yield [[k, v] for k, v in d2.items()]
+
+
+def extra_check(tier, seed):
+    """validation of the translator's reading of Python float arithmetic: the code translated from the current source, evaluated
+    by Coq's kernel on primitive binary64 floats, reproduces physt's grid bookkeeping bit for bit on random histories"""
+    from harness import floatrun
+    shards = 1 if tier == "quick" else 6
+    total = 0; failing = []; log = ""
+    for k in range(shards):
+        r = floatrun.float_tie(seed + 1000 * k, 150 if tier == "quick" else 500)
+        total += r["cases"]; failing += r["failing"]; log += r["log"]
+        if not r["ok"] and not r["failing"]: failing.append(dict(index=-1, note="the comparison file did not compile or gave unexpected output", log=r["log"]))
+    return dict(name="binary64-tie", ok=not failing, cases=total, failing=failing[:5],
+                what=("corr: FixedWidthBinning._force_bin_existence(_single) as translated from the current source (coq/Gen/PyFW.v) and evaluated in "
+                      "binary64 by vm_compute (coq/Tie/FloatRun.v) differs from physt's own _times_min / _bin_count / _shift / returned value"))
